@@ -164,8 +164,15 @@ JudgeForm(t, obs) ==
   { [ property |-> "C05", clause |-> "NullableForm", sig |-> o.pos \o ":nullable-type-written-as-union:" \o Shape(t),
       expected |-> "T?", observed |-> ToString(o.tys[1]) ]
     : o \in { o \in { obs.pos[j] : j \in 1..Len(obs.pos) } : ~o.missing /\ Len(o.tys) = 1 /\ MustBeNullable(t) /\ o.tys[1].k = "union" } }
+(* "Literal to literal": every literal value is written once *)
+RepeatsValue(ty) == ty.k = "literal" /\ \E j, k \in 1..Len(ty.l) : j < k /\ ty.l[j] = ty.l[k]
+JudgeLiteral(t, obs) ==
+  { [ property |-> "C05", clause |-> "LiteralOnce", sig |-> o.pos \o ":literal-value-written-twice:" \o Shape(t),
+      expected |-> "each value once", observed |-> ToString(o.tys[1]) ]
+    : o \in { o \in { obs.pos[j] : j \in 1..Len(obs.pos) } : ~o.missing /\ Len(o.tys) = 1 /\ Len(t.l) = Cardinality({ t.l[j] : j \in 1..Len(t.l) })
+                                                               /\ (RepeatsValue(o.tys[1]) \/ (o.tys[1].k = "union" /\ \E m \in 1..Len(o.tys[1].a) : RepeatsValue(o.tys[1].a[m]))) } }
 Judge(t, obs) ==
-  JudgeForm(t, obs) \cup
+  JudgeForm(t, obs) \cup JudgeLiteral(t, obs) \cup
   { [ property |-> "C05", clause |-> "Position",
       sig |-> o.pos \o ":" \o (IF o.missing THEN "declaration-missing:" ELSE "") \o Shape(t),
       expected |-> ToString(ExpSeq(t, o)),
